@@ -28,6 +28,7 @@ type LockCfg struct {
 	LockKey  int    // index of the lock key (P2PK)
 	Preimage string // HTLC
 	HashKind int    // 0 well-formed, 1 short, 2 non-hex
+	TagOrder int    // 0 sigflag first (the library's order), 1 reversed, 2 sigflag last (NUT-10 fixes no order)
 }
 
 type KeyRing struct {
@@ -78,6 +79,16 @@ func (c *LockCfg) Secret(kr *KeyRing) string {
 			t = append(t, kr.PubHex(i))
 		}
 		tags = append(tags, t)
+	}
+	switch c.TagOrder {
+	case 1:
+		for i, j := 0, len(tags)-1; i < j; i, j = i+1, j-1 {
+			tags[i], tags[j] = tags[j], tags[i]
+		}
+	case 2:
+		if len(tags) > 1 && tags[0][0] == "sigflag" {
+			tags = append(tags[1:], tags[0])
+		}
 	}
 	if tags == nil {
 		tags = [][]string{}
